@@ -7,7 +7,7 @@ non-nullable column has no bitmap to live in and silently becomes a default valu
 Does not decide: agreement of static plan types with run-time arrays (needs running the plan)."""
 import re
 
-from tmpl import site, suffix, flows_from, origin_locals, local_defs
+from tmpl import site, suffix, flows_from, origin_locals, local_defs, fallible_guards
 
 INSERT = 'executor::insert::InsertExecutor::<S>::execute'
 
@@ -52,7 +52,7 @@ def run(ctx):
     R2 = 'C16-R2'
     ctx.rule(R2, 'InsertExecutor builds, for every table column, Expr::Cast(Expr::Type(col.data_type()), value) and evaluates '
                  'the input through that expression before append')
-    grp = prog.group(INSERT)
+    grp = insert_bodies(prog)
     if ctx.anchor(R2, INSERT, bool(grp)):
         casts = [(g, bb) for g in grp for bb, _ in g.aggregates('planner::Expr', 'Cast')]
         types = []
@@ -166,7 +166,7 @@ def run(ctx):
                  'a table column is found by looking that column\'s id up in the statement\'s column list (Iterator::position over column_ids '
                  'with a predicate on ColumnCatalog::id) - never by the column\'s own position in the table')
     n_ci = 0
-    for g in prog.group(INSERT):
+    for g in insert_bodies(prog):
         for bb, st in g.aggregates('types::ColumnIndex'):
             n_ci += 1
             ctx.functions_analysed.add(g.name)
@@ -196,7 +196,7 @@ def run(ctx):
                     walk(op['pl']['l'])
             by_lookup = bool(leaves) and all(x[0] == 'call' and x[1].endswith('Iterator::position') for x in leaves)
             # the predicate of the look-up compares with the id of the column
-            pred_ok = any((c.fn or '').endswith('ColumnCatalog::id') for h in prog.group(INSERT) for c in h.calls
+            pred_ok = any((c.fn or '').endswith('ColumnCatalog::id') for h in insert_bodies(prog) for c in h.calls
                           if h.name.startswith(g.name + '::{closure'))
             ctx.ob(R8, 'InsertExecutor·source-position-by-column-id', by_lookup and pred_ok,
                    f'{g.name} block {bb}: the ColumnIndex fed into the cast comes from {sorted(set(x[1].rsplit("::", 1)[-1] if x[0] == "call" else x[0] + ":" + x[1] for x in leaves))}; '
@@ -215,20 +215,24 @@ def run(ctx):
     if ctx.anchor(R9, BI, bi is not None):
         ctx.functions_analysed.add(bi.name)
         ins = [bb for bb, _ in bi.aggregates('planner::Expr', 'Insert')]
-        errs = bi.error_exit_blocks()
-        guards = []
-        for bb, st in bi.stmts():
-            rv = st.get('rv', {}) if st['s'] == 'assign' else {}
-            if rv.get('rv') == 'binop' and rv['op'] in ('Ne', 'Eq') and rv.get('ty') == 'usize':
-                src = set()
-                for pl in __pl(rv):
-                    src |= origin_locals(bi, pl['l'], depth=8)
-                lens = {c.bb for c in bi.calls if c.dest['l'] in src and re.search(r'::len$', c.fn or '')}
-                from_schema = any(c.dest['l'] in src and (c.fn or '').endswith('Binder::schema') for c in bi.calls)
-                if len(lens) >= 2 and from_schema:
-                    guards.append(bb)
-        ok = bool(ins) and bool(guards) and all(bi.dominated_by_any(set(guards), i) for i in ins) and \
-            any(bi.reachable_from([g_], avoid=set(ins)) & errs for g_ in guards)
+
+        def arity_cmp(g):
+            """comparisons in g of two lengths, one of them the width of a Binder::schema(..)"""
+            out = []
+            for bb, st in g.stmts():
+                rv = st.get('rv', {}) if st['s'] == 'assign' else {}
+                if rv.get('rv') == 'binop' and rv['op'] in ('Ne', 'Eq') and rv.get('ty') == 'usize':
+                    src = set()
+                    for pl in __pl(rv):
+                        src |= origin_locals(g, pl['l'], depth=8)
+                    lens = {c.bb for c in g.calls if c.dest['l'] in src and re.search(r'::len$', c.fn or '')}
+                    from_schema = any(c.dest['l'] in src and (c.fn or '').endswith('Binder::schema') for c in g.calls)
+                    if len(lens) >= 2 and from_schema:
+                        out.append(bb)
+            return out
+        # the comparison may sit in bind_insert itself or in a helper it calls with `?`
+        guards = fallible_guards(prog, bi, lambda g, c: (c.fn or '').endswith('Binder::schema') and bool(arity_cmp(g)), ins)
+        ok = bool(ins) and bool(guards) and all(bi.dominated_by_any(set(guards), i) for i in ins)
         if ctx.anchor(R9, 'bind_insert builds Expr::Insert', bool(ins)):
             ctx.ob(R9, 'bind_insert·source-width-equals-target-columns', ok,
                    f'comparisons of the source width with the target list at {guards}; Insert built at {ins}', [site(bi, x) for x in (guards or ins)],
@@ -308,6 +312,11 @@ def run(ctx):
 def __pl(x):
     from mir import operand_places
     return operand_places(x)
+
+
+def insert_bodies(prog):
+    """InsertExecutor::execute with its closures, and the other methods of InsertExecutor (a helper that builds the cast expression)"""
+    return [b for b in prog.bodies.values() if b.name.startswith('executor::insert::InsertExecutor::<S>::')]
 
 
 def lossless_insert_casts(ctx, prog):
